@@ -468,36 +468,48 @@ def r6_r2_line(ctx, sym):
                       "verify() on the text 'x\\0' raises TypeError while the traceback is being built")
 
 
-def section_offsets(ctx, sym):
-    """The section offset that syntax_error adds is the one next_section computes: the session table of C17.R3
-    (separate_into_sections -> next_section*, executed abstractly on files with form feeds, U+2028, adjacent markers)
-    decides that it is the number of lines CPython counts before the section. Shared with C17; reported here as R6s."""
+def run_as(ctx, from_rule, as_rule, fn, prefix):
+    """Run fn() - a rule of another property that reports under `from_rule` - and file what it reports under `as_rule`
+    of this property."""
+    before = (len(ctx.obligations), len(ctx.findings))
+    had = from_rule in ctx.rules
+    saved = ctx.rules.get(from_rule)
+    fn()
+    desc = ctx.rules.pop(from_rule, '')
+    if had:
+        ctx.rules[from_rule] = saved
+    ctx.rules[as_rule] = prefix + desc
+    new_keys = set()
+    for i in range(before[0], len(ctx.obligations)):
+        rule, key, ok = ctx.obligations[i]
+        if rule == from_rule:
+            ctx.obligations[i] = (as_rule, key, ok)
+            new_keys.add(key)
+    for f in ctx.findings[before[1]:]:
+        if f.rule == from_rule:
+            f.rule = as_rule
+    ctx.nontrivial = {(as_rule if (r == from_rule and k in new_keys) else r, k) for r, k in ctx.nontrivial}
+
+
+def section_offsets(ctx, sym, as_rule='R6s', partition_as=None):
+    """The section offset that syntax_error (and TIFA's locate) adds is the one next_section computes: the session table
+    of C17.R3 (separate_into_sections -> next_section*, executed abstractly on files with form feeds, U+2028, adjacent
+    markers) decides that it is the number of lines CPython counts before the section. Shared with C17; reported here
+    under `as_rule`. With partition_as, C17.R1 (the section pattern splits the text without losing a character) is
+    reported as well."""
     from . import c17
     smod = ctx.repo.module(c17.SECTIONS)
-    before = (len(ctx.obligations), len(ctx.findings))
-    had = 'R3' in ctx.rules
-    saved = ctx.rules.get('R3')
     try:
         text = sym.const(smod, smod.top_assign('DEFAULT_SECTION_PATTERN'))
     except KeyError:
         raise AnalysisError("DEFAULT_SECTION_PATTERN is not a literal")
+    if partition_as is not None:
+        run_as(ctx, 'R1', partition_as, lambda: c17.r1_lossless(ctx, sym, smod), "section partition (shared with C17.R1): ")
     import re as _re
     if _re.compile(text).groups != 1:
         return
-    c17.r3_next_section_table(ctx, sym, smod, text)
-    desc = ctx.rules.pop('R3')
-    if had:
-        ctx.rules['R3'] = saved
-    ctx.rules['R6s'] = "section offsets (shared with C17.R3): " + desc
-    for i in range(before[0], len(ctx.obligations)):
-        rule, key, ok = ctx.obligations[i]
-        if rule == 'R3':
-            ctx.obligations[i] = ('R6s', key, ok)
-    for f in ctx.findings[before[1]:]:
-        if f.rule == 'R3':
-            f.rule = 'R6s'
-    ctx.nontrivial = {('R6s' if (r == 'R3' and k.startswith(('next_section', 'stop-after'))) else r, k)
-                      for r, k in ctx.nontrivial}
+    run_as(ctx, 'R3', as_rule, lambda: c17.r3_next_section_table(ctx, sym, smod, text),
+           "section offsets (shared with C17.R3): ")
 
 
 def run(ctx):
